@@ -995,7 +995,7 @@ impl FwProp for C10 {
             property: "C10",
             engine: "fwsim",
             level: "exploration",
-            rule: "case = target machine from the det family (probability-1 transitions, constant distributions, never signals) placed at a random position among 1..4 neighbours of any family that never signal, framework fractions 0; the combined framework runs a closed-loop fault-injected history H, the target alone runs H with completions addressed to it renamed to id 0 and completions addressed to neighbours renamed to unknown ids; the target's actions must agree call by call; distinct = hash of per-call (event kinds, action kinds); non-trivial = target returned an action and a neighbour raised CounterZero / LimitReached / scheduled an action in some call".into(),
+            rule: "case = target machine from the det family under a fair stream (60%) or from the dyadic family - probabilistic transitions, sampled Uniform distributions - under const-per-call words (40%; every draw of a call returns the same word, so the shared stream cannot matter), never signalling, placed at a random position among 1..4 neighbours of any family that never signal, framework fractions 0; the combined framework runs a closed-loop fault-injected history H, the target alone runs H with completions addressed to it renamed to id 0 and completions addressed to neighbours renamed to unknown ids; the target's actions must agree call by call; distinct = hash of per-call (event kinds, action kinds); non-trivial = target returned an action and a neighbour raised CounterZero / LimitReached / scheduled an action in some call".into(),
             assumptions: vec![
                 "differential oracle: solo run and combined run use the real framework; the harness only renames machine ids".into(),
                 "the target uses no randomness that matters (probability-1 transitions, constant distributions), so sharing the random stream cannot couple it to neighbours".into(),
@@ -1014,7 +1014,11 @@ impl FwProp for C10 {
         }
     }
     fn generate(&self, g: &mut Gen, _tier: Tier, stats: &mut Stats) -> FwCase {
-        let mut tc = MachCfg::new(Family::Det);
+        // det target under a fair stream, or dyadic (probabilistic) target under
+        // const-per-call words: every draw of a call returns the same word, so the
+        // shared stream cannot couple the target to its neighbours either
+        let probabilistic = g.chance(0.4);
+        let mut tc = MachCfg::new(if probabilistic { Family::Dyadic } else { Family::Det });
         tc.p_signal = 0.0;
         tc.max_states = 1 + g.usize(4);
         tc.p_trans = *g.pick(&[0.3, 0.5, 0.8]);
@@ -1024,7 +1028,13 @@ impl FwProp for C10 {
         let target_m = mach::gen_machine(g, &tc);
         // neighbours: often copies or near-copies of the target (same events bite)
         let nn = 1 + g.usize(4);
-        let fam = *g.pick(&[Family::Det, Family::Dyadic, Family::Wild]);
+        // under const-per-call words only families whose samplers terminate on a
+        // constant stream (no rejection sampling): det and dyadic
+        let fam = if probabilistic {
+            *g.pick(&[Family::Det, Family::Dyadic])
+        } else {
+            *g.pick(&[Family::Det, Family::Dyadic, Family::Wild])
+        };
         let mut nc = MachCfg::new(fam);
         nc.p_signal = 0.0;
         nc.max_states = 1 + g.usize(4);
@@ -1043,7 +1053,11 @@ impl FwProp for C10 {
         let pos = g.usize(nn + 1);
         machines.insert(pos, target_m);
         let start = *g.pick(&[0u64, 1_000_000_000]);
-        let rng = RngSpec::Free(g.u64());
+        let rng = if probabilistic {
+            RngSpec::ConstPerCall(boundary_words(g, 61))
+        } else {
+            RngSpec::Free(g.u64())
+        };
         let mut hc = if g.chance(0.2) {
             HistCfg::fault_free(100)
         } else {
